@@ -557,6 +557,91 @@ def E_readonly_memory(rng, tier):
         shutil.rmtree(d, ignore_errors=True)
 
 
+def E_shapes(rng, tier):
+    """the same numbers in another *shape* than the documented one: a series as a column
+    [n, 1] or a row [1, n], a 2-D array flattened, transposed or with a trailing axis, a
+    0-d array, one column too many or too few. Most of these are refused with an
+    exception; none may make a kernel walk memory it was not given."""
+    from hydrodiy.stat import metrics, sutils, armodels
+    from hydrodiy.data import dutils, qualitycontrol as qc
+    from hydrodiy.gis import gutils
+    from hydrodiy.gis import grid as gg
+    r = np.random.default_rng(11)
+
+    def variants(a):
+        a = np.asarray(a)
+        out = {"col": a.reshape((-1, 1)), "row": a.reshape((1, -1)),
+               "3d": a[..., None], "0d": np.array(a.ravel()[0]) if a.size else a}
+        if a.ndim == 2:
+            out.update({"flat": a.ravel(), "T": a.T, "T-copy": np.ascontiguousarray(a.T),
+                        "one-col-less": a[:, :-1], "one-col-more":
+                        np.column_stack([a, a[:, :1]]), "one-row-less": a[:-1]})
+        else:
+            out.update({"two-cols": np.column_stack([a, a]), "shorter": a[:-1],
+                        "longer": np.concatenate([a, a[:1]])})
+        return out
+    for n in (1, 2, 7, 40):
+        obs = np.abs(r.normal(size=n)) + 0.5
+        ens = np.abs(r.normal(size=(n, 5))) + 0.5
+        u = r.random(n)
+        idx = np.repeat(np.arange(n // 2 + 1), 2)[:n].astype(np.int32)
+        pts = r.uniform(0, 5, size=(n, 2))
+        poly = np.array([[0., 0.], [4., 0.], [4., 4.], [0., 4.]])
+        phi = np.array([0.5, 0.2])
+        g = _grid(5, 6)
+        g.data = r.normal(size=(5, 6))
+        cat, fd = _catch(np.full((5, 6), 4))
+        cat.delineate_area(24)
+        two = {
+            "crps": (lambda a, b: metrics.crps(a, b), obs, ens),
+            "pit": (lambda a, b: metrics.pit(a, b), obs, ens),
+            "alpha": (lambda a, b: metrics.alpha(a, b), obs, ens),
+            "dscore": (lambda a, b: metrics.dscore(a, b), obs, ens),
+            "nse-kge-bias": (lambda a, b: (metrics.nse(a, b), metrics.kge(a, b),
+                                           metrics.bias(a, b)), obs, obs * 1.1),
+            "corr": (lambda a, b: metrics.corr(a, b), obs, ens),
+            "aggregate": (lambda a, b: [dutils.aggregate(a, b, operator=k)
+                                        for k in range(4)], idx, obs),
+            "flathomogen": (lambda a, b: dutils.flathomogen(a, b), idx, obs),
+            "armodel_sim": (lambda a, b: armodels.armodel_sim(a, b), phi, obs),
+            "armodel_residual": (lambda a, b: armodels.armodel_residual(a, b), phi, obs),
+            "lstsq": (lambda a, b: sutils.lstsq(a, b), ens[:, :2], obs),
+            "points_inside_polygon": (lambda a, b: gutils.points_inside_polygon(a, b),
+                                      pts, poly),
+            "voronoi": (lambda a, b: gg.voronoi(cat, a), pts, pts),
+            "coord2cell-slice": (lambda a, b: (g.coord2cell(a), g.slice(b)), pts, pts),
+            "cells_inside_polygon": (lambda a, b: g.cells_inside_polygon(a), poly, poly),
+        }
+        one = {
+            "anderson_darling": (metrics.anderson_darling_test, u),
+            "cramer_von_mises": (metrics.cramer_von_mises_test, u),
+            "islinear": (qc.islinear, obs),
+            "pareto_front": (sutils.pareto_front, ens),
+            "standard_normal": (sutils.standard_normal, obs),
+            "cell2coord": (lambda a: (g.cell2coord(a), g.cell2rowcol(a)),
+                           np.arange(n, dtype=np.int64)),
+        }
+        for nm, (fn, a, b) in two.items():
+            va, vb = variants(a), variants(b)
+            for ka, xa in va.items():
+                def thunk(fn=fn, xa=xa, b=b):
+                    fn(np.array(xa, copy=True), np.array(b, copy=True))
+                yield f"{nm}|first={ka}|n={n}", thunk
+            for kb, xb in vb.items():
+                def thunk(fn=fn, a=a, xb=xb):
+                    fn(np.array(a, copy=True), np.array(xb, copy=True))
+                yield f"{nm}|second={kb}|n={n}", thunk
+            for k in ("col", "row", "3d"):
+                def thunk(fn=fn, xa=va[k], xb=vb[k]):
+                    fn(np.array(xa, copy=True), np.array(xb, copy=True))
+                yield f"{nm}|both={k}|n={n}", thunk
+        for nm, (fn, a) in one.items():
+            for ka, xa in variants(a).items():
+                def thunk(fn=fn, xa=xa):
+                    fn(np.array(xa, copy=True))
+                yield f"{nm}|arg={ka}|n={n}", thunk
+
+
 def E_sizes(rng, tier):
     """dense sweeps of every size-like dimension (each length from 0 or 1 up to a few
     hundred, plus the neighbours of powers of two and of round numbers beyond), with
@@ -885,6 +970,7 @@ ENTRIES = {
     "delineate_river": E_river, "voronoi-intersect": E_voronoi_intersect,
     "intersect-alignments": E_intersect_alignments, "grid-edges": E_gridedges,
     "readonly-memory": E_readonly_memory, "size-sweeps": E_sizes,
+    "shape-variants": E_shapes,
 }
 
 
